@@ -825,21 +825,26 @@ theorem loadAllExec_eq (md : Meta) (files : Files) : loadAllExec md files = load
 
 /-! ### sub-run annotations -/
 
+/-- strict lexicographic order on (start, end) -/
+def keyLt (a b : Run) : Prop := a.start < b.start ∨ (a.start = b.start ∧ a.stop < b.stop)
+
 theorem spansOk_facts : ∀ (s : Runs), spansOkB s = true →
-    s.Pairwise (fun a b => a.start < b.start) ∧ runsOverlap s = false ∧ (∀ a ∈ s, a.start < a.stop) ∧
-    (∀ h, s.head? = some h → ∀ a ∈ s, h.start ≤ a.start)
+    s.Pairwise keyLt ∧ runsOverlap s = false ∧ (∀ a ∈ s, a.start ≤ a.stop) ∧
+    (∀ h, s.head? = some h → ∀ a ∈ s, h.start ≤ a.start ∧ h.stop ≤ a.stop)
   | [], _ => by simp [runsOverlap]
   | [a], h => by simp_all [spansOkB, runsOverlap]
   | a :: b :: rest, h => by
     simp only [spansOkB, Bool.and_eq_true, decide_eq_true_eq] at h
-    obtain ⟨⟨h1, h2⟩, h3⟩ := h
+    obtain ⟨⟨⟨h1, h2⟩, h2'⟩, h3⟩ := h
     obtain ⟨ih1, ih2, ih3, ih4⟩ := spansOk_facts (b :: rest) h3
     have hb := ih4 b rfl
+    have hbb := ih3 b (by simp)
     refine ⟨?_, ?_, ?_, ?_⟩
     · rw [List.pairwise_cons]
       refine ⟨?_, ih1⟩
       intro x hx
       have := hb x hx
+      unfold keyLt
       omega
     · simp only [runsOverlap, ih2, Bool.or_false, decide_eq_false_iff_not]; omega
     · intro x hx
@@ -855,39 +860,38 @@ theorem spansOk_facts : ∀ (s : Runs), spansOkB s = true →
       · omega
       · have := hb x (by simpa using hx); omega
 
-/-- sub-run spans of positive length in time order survive the json key sort + the constructor's
-sort by start, whatever the order of their ids -/
+/-- sub-run spans in time order with pairwise different (start, end) survive the json key sort + the
+constructor's stable sort by (start, end), whatever the order of their ids -/
 theorem restorable_of_spansOk (s : Runs) (h : spansOkB s = true) : restorableRuns (some s) = true := by
   obtain ⟨hp, hov, _, _⟩ := spansOk_facts s h
   simp only [restorableRuns, Bool.and_eq_true, beq_iff_eq, Bool.not_eq_true', hov, and_true]
-  let le : Run → Run → Bool := fun a b => decide (a.start ≤ b.start)
   have hperm : (sortRuns (jsonRuns s)).Perm s :=
     (List.mergeSort_perm _ _).trans (List.mergeSort_perm _ _)
-  have hsorted : (sortRuns (jsonRuns s)).Pairwise (fun a b => le a b = true) :=
-    List.pairwise_mergeSort (le := le)
-      (by intro a b c; simp only [le, decide_eq_true_eq]; omega)
-      (by intro a b; simp only [le, Bool.or_eq_true, decide_eq_true_eq]; omega) _
-  have hs2 : s.Pairwise (fun a b => le a b = true) :=
-    hp.imp (by intro a b hab; simp only [le, decide_eq_true_eq]; omega)
-  refine List.Perm.eq_of_pairwise (le := fun a b => le a b = true) ?_ hsorted hs2 hperm
+  have hsorted : (sortRuns (jsonRuns s)).Pairwise (fun a b => runLe a b = true) :=
+    List.pairwise_mergeSort (le := runLe)
+      (by intro a b c; simp only [runLe, decide_eq_true_eq]; omega)
+      (by intro a b; simp only [runLe, Bool.or_eq_true, decide_eq_true_eq]; omega) _
+  have hs2 : s.Pairwise (fun a b => runLe a b = true) :=
+    hp.imp (by intro a b hab; unfold keyLt at hab; simp only [runLe, decide_eq_true_eq]; omega)
+  refine List.Perm.eq_of_pairwise (le := fun a b => runLe a b = true) ?_ hsorted hs2 hperm
   intro a b ha hb hab hba
-  simp only [le, decide_eq_true_eq] at hab hba
+  simp only [runLe, decide_eq_true_eq] at hab hba
   have ha' : a ∈ s := hperm.subset ha
-  -- equal starts inside a strictly increasing list: the same element
-  have key : ∀ (l : List Run), l.Pairwise (fun a b => a.start < b.start) → ∀ x ∈ l, ∀ y ∈ l, x.start = y.start → x = y := by
+  -- equal keys inside a strictly increasing list: the same element
+  have key : ∀ (l : List Run), l.Pairwise keyLt → ∀ x ∈ l, ∀ y ∈ l, x.start = y.start → x.stop = y.stop → x = y := by
     intro l hl
     induction l with
     | nil => intro x hx; simp at hx
     | cons z l ih =>
       rw [List.pairwise_cons] at hl
-      intro x hx y hy hxy
+      intro x hx y hy hxy hxy'
       simp only [List.mem_cons] at hx hy
       rcases hx with rfl | hx <;> rcases hy with rfl | hy
       · rfl
-      · have := hl.1 y hy; omega
-      · have := hl.1 x hx; omega
-      · exact ih hl.2 x hx y hy hxy
-  exact key s hp a ha' b hb (by omega)
+      · have := hl.1 y hy; unfold keyLt at this; omega
+      · have := hl.1 x hx; unfold keyLt at this; omega
+      · exact ih hl.2 x hx y hy hxy hxy'
+  exact key s hp a ha' b hb (by omega) (by omega)
 
 /-- metadata as an executor saver writes it: no `filesize` in any entry -/
 def Meta.withoutFilesize (m : Meta) : Meta :=
